@@ -67,9 +67,6 @@ func c09NewWorker() (*c09Worker, error) {
 		c.EnableNameConflictResolution = true
 		c.DisableCoordinates = false
 		c.Merge = c09Merge{}
-		// both event coalescers sit between the handlers and the application
-		c.CoalescePeriod, c.QuiescentPeriod = 2*time.Millisecond, time.Millisecond
-		c.UserCoalescePeriod, c.UserQuiescentPeriod = 2*time.Millisecond, time.Millisecond
 		c.EventBuffer = 4
 		c.QueryBuffer = 4
 		c.BroadcastTimeout = time.Millisecond
@@ -609,6 +606,6 @@ func init() {
 		Gen:      c09Gen,
 		Exec:     c09Exec,
 		Isolate:  true,
-		Parallel: 12,
+		Parallel: 8,
 	})
 }
